@@ -120,8 +120,11 @@ class C06(Property):
                         if path is None or not all(any(c is e for e in entered) for c in path):
                             continue
                         if not any(p.kind == "chunk" and p.chunk.node is x for p in pieces):
-                            cases.append(Case("%se%d" % (gid, j), opts, base, env=[(x["n"]["env"][0].encode(), b"notanumber")],
-                                              tags={"role": "badenv", "group": gid, "frags": INT_ERRS, "in_alt": id(x) in in_alt}))
+                            # (a variable that is SET to the empty string is present: the empty text fails conversion)
+                            bad = rng.choice([b"notanumber", b"", b"", b" 5", b"5 "])
+                            cases.append(Case("%se%d" % (gid, j), opts, base, env=[(x["n"]["env"][0].encode(), bad)],
+                                              tags={"role": "badenv", "group": gid, "frags": INT_ERRS, "in_alt": id(x) in in_alt,
+                                                    "value": bad}))
                             j += 1
                             break
         return cases
@@ -152,8 +155,14 @@ class C06(Property):
         opts = gen.options(gen.con(*fields), descr="Lab")
         argv = [gen.spell_flag(rng, other)] if rng.random() < 0.5 else []
         gid = "g%dz" % k
-        return [Case(gid + "s", opts, argv, env=[(var.encode(), val)], tags={"role": "defaulted-set", "group": gid, "wrap": w}),
-                Case(gid + "u", opts, argv, unset=[var.encode()], tags={"role": "defaulted-unset", "group": gid, "wrap": w})]
+        out = [Case(gid + "s", opts, argv, env=[(var.encode(), val)], tags={"role": "defaulted-set", "group": gid, "wrap": w}),
+               Case(gid + "u", opts, argv, unset=[var.encode()], tags={"role": "defaulted-unset", "group": gid, "wrap": w})]
+        if leaf["k"] == "arg":
+            # the variable SET to a text that is not a number (the empty text included): present but invalid, never the default
+            bad = rng.choice([b"", b"", b"many", b" 7"])
+            out.append(Case(gid + "e", opts, argv, env=[(var.encode(), bad)],
+                            tags={"role": "defaulted-bad", "group": gid, "wrap": w, "value": bad}))
+        return out
 
     def judge(self, cases, model, impl):
         out, base, nontrivial, dist = [], {}, [], {}
@@ -168,6 +177,19 @@ class C06(Property):
                         out.append(Finding("violation", c, "an absent defaulted item (`%s`, variable unset) makes the run fail: %s (with the "
                                                            "variable set the same line is accepted: %s)"
                                            % (c.tags["wrap"], common.show(impl.get(c.id)), common.show(impl.get(cs.id))), related=[cs]))
+        for c in cases:
+            if c.tags.get("role") == "defaulted-bad":
+                dist["defaulted-bad:" + c.tags["wrap"]] = dist.get("defaulted-bad:" + c.tags["wrap"], 0) + 1
+                cs = dset.get(c.tags["group"])
+                if cs is not None and compare.impl_class(impl.get(cs.id)) == "OK":
+                    nontrivial.append(c.line())
+                    ic = impl.get(c.id)
+                    if compare.impl_class(ic) == "OK":
+                        out.append(Finding("violation", c, "the declared variable holds %r, which is not a number, yet the `%s` default "
+                                                           "masks it: the run yields %s" % (c.tags["value"], c.tags["wrap"], ic[1]), related=[cs]))
+                    elif compare.impl_class(ic) == "STDERR" and not any(f in gen.unhx(ic[1]) for f in INT_ERRS):
+                        out.append(Finding("violation", c, "the failure message does not carry the conversion text: %r"
+                                           % gen.unhx(ic[1])[:200], related=[cs]))
         for c in cases:
             r = compare.agree_class_value(model.get(c.id), impl.get(c.id))
             if r:
@@ -196,7 +218,7 @@ class C06(Property):
                 out.append(Finding("violation", c,
                                    "a present but invalid value (%s) was masked: the run still yields %s" %
                                    (("value %r fails %s" % (c.tags.get("value"), c.tags.get("why"))) if role == "bad" else
-                                    "declared environment variable set to `notanumber`", ic[1]), related=[b]))
+                                    "declared environment variable set to %r" % c.tags.get("value"), ic[1]), related=[b]))
             elif cls == "STDERR" and not c.tags["in_alt"]:
                 text = gen.unhx(ic[1])
                 if not any(f in text for f in c.tags["frags"]):
